@@ -67,7 +67,7 @@ class Case:
         P = []
         g = self.st.g
         name = op[0]
-        if name.startswith("transform."):
+        if name.startswith("transform.") or name in ("enter", "exit", "exit!", "exit!k"):
             want_exc = model_step(self.model, op)
             exc, chunks = self.st.call(op)
             self.synced = False
@@ -184,6 +184,18 @@ def histories(tier):
                 for t2 in TRANSFORMS:
                     for m2 in MOTIONS:
                         out.append((12, [t1, SYNC, m1, t2, SYNC, m2]))
+    # the transform is changed inside a current_transform() / named_transform() block; the block is left normally or by an
+    # exception raised in its body; the moves that follow are emitted under the transform that was active before the block
+    t0s = [[], [TRANSFORMS[0]], [TRANSFORMS[1]]] if tier == "quick" else [[]] + [[t] for t in TRANSFORMS[:12]]
+    t1s = TRANSFORMS[:8] if tier == "quick" else TRANSFORMS[:14]
+    inner = [[], [MOTIONS[3]]] if tier == "quick" else [[], [MOTIONS[3]], [SYNC, MOTIONS[8], MOTIONS[0]]]
+    for t0 in t0s:
+        for enter in ([["enter", ["current_transform"]]], [["transform.save_state", ["n"]], TRANSFORMS[4], ["enter", ["named_transform", "n"]]]):
+            for t1 in t1s:
+                for mid in inner:
+                    for leave in ("exit", "exit!", "exit!k"):
+                        for ms in motions(1 if tier == "quick" else 2):
+                            out.append((12, t0 + enter + [t1] + mid + [[leave], SYNC] + ms))
     return out
 
 
@@ -202,7 +214,8 @@ def run(tier, seed):
         "evaluations": len(hists), "distinct_nontrivial": len(states),
         "rule": ("histories = composition of <= 2-3 transform ops (translate, rotate about x/y/z, uniform/2-/3-factor scale, two reflections, mirrors, pivot change) + "
                  "a synchronising full-XYZ absolute move + <= 2-3 motion ops (partial-axis moves/rapids/probes, distance-mode switches, trace.arc, trace.polyline), at 12 and 5 "
-                 "decimals; every emitted motion word is compared with the image of the requested target/displacement under an independent pure-python affine model, every axis "
+                 "decimals, plus histories where the transform is changed inside a current_transform()/named_transform() block that is left normally, by an "
+                 "Exception or by a BaseException before the moves; every emitted motion word is compared with the image of the requested target/displacement under an independent pure-python affine model, every axis "
                  "whose machine coordinate must change has to be mentioned, and after every call the interpreter's machine position must equal transform(builder.position); "
                  "states = distinct (final machine position, matrix)"),
         "exhaustive": True, "exhaustive_note": "all histories of the stated shape are enumerated; the transform parameter values are fixed",
